@@ -4,9 +4,10 @@ import Parmcb.Lemmas.Dimacs
 # C10 — DIMACS reader and input validators describe the file faithfully
 
 Property theorems only (helper lemmas: `Parmcb/Lemmas/Dimacs.lean`).
-The tokenisation glue `classify` (what `sscanf` does on a well-formed line) is exercised by the
-correspondence check and not reasoned about; the theorems are about the newline handling of the line
-buffer and about the interpretation of the classified lines.
+The theorems are about the newline handling of the line buffer, about the interpretation of the classified
+lines, and (last section) about the step from TEXT to classified lines: the tokenisation glue `classify`
+(what `sscanf` does on a well-formed line; also exercised by the correspondence check) inverts a text
+renderer, which gives a round trip at the level of raw `fgets` lines.
 -/
 namespace Parmcb.C10
 open Parmcb
@@ -71,5 +72,45 @@ theorem c10_has_multiple (g : Graph) (hr : ∀ e, e < g.m → g.src e < g.n ∧ 
       ∃ e f, e < f ∧ f < g.m ∧
         ((g.src e = g.src f ∧ g.tgt e = g.tgt f) ∨ (g.src e = g.tgt f ∧ g.tgt e = g.src f)) :=
   DimacsL.hasMultipleEdges_iff g hr
+
+/-! ### from text to classified lines
+
+Renderers (`Parmcb/Lemmas/Dimacs.lean`): `renderNat` = decimal digits; `renderDec d` = integer part of
+`mant / 10^exp` and, when `exp > 0`, a `'.'` and exactly `exp` zero-padded fractional digits;
+`renderEdgeLine st u v w` = tag `e`/`a`, gaps of `gapk + 1` spaces, 1-based endpoints, the weight (left out
+when `st.omitOne` and `w = 1`); `renderProblemLine` = `p edge n m`; `renderComment` = `c`/`#` and any text;
+`renderText g lay` = the raw lines of a file laid out as `lay : Layout` says (comment lines anywhere, a style
+per edge line, final newline or not). -/
+
+open DimacsL in
+/-- an edge line `e u v w` / `a u v w` — whatever the tag, however many spaces in the gaps, with the weight
+printed as a decimal with any number of fractional digits, or left out when it is 1 — is read as the edge
+`u v` with exactly that weight -/
+theorem c10_classify_edge_line (st : EdgeStyle) (u v : Nat) (w : Dec) (hw : 0 ≤ w.mant) :
+    classify (String.ofList (renderEdgeLine st u v w)) = .edge u v w :=
+  DimacsL.classify_edgeLine st u v w hw
+
+open DimacsL in
+/-- a problem line `p edge n m` (any spacing) declares `n` vertices -/
+theorem c10_classify_problem_line (gap1 gap2 gap3 n m : Nat) :
+    classify (String.ofList (renderProblemLine gap1 gap2 gap3 n m)) = .problem n :=
+  DimacsL.classify_problemLine gap1 gap2 gap3 n m
+
+open DimacsL in
+/-- a line starting with `c` or `#` is a comment, whatever follows -/
+theorem c10_classify_comment (hash : Bool) (text : List Char) :
+    classify (String.ofList (renderComment hash text)) = .comment :=
+  DimacsL.classify_comment hash text
+
+open DimacsL in
+/-- **text round trip**: write a graph (endpoints in range, non-negative weights) down as DIMACS text — comment
+lines (`c …` / `# …`) before the problem line, between the edge lines and at the end; any spacing; `e` or `a`
+tags; weights with any number of decimals, weight 1 possibly omitted; the last line with or without its
+`'\n'` — and the reader, fed the raw `fgets` lines, reconstructs exactly that graph -/
+theorem c10_text_roundtrip (g : DGraph) (lay : Layout)
+    (hg : ∀ e ∈ g.edges, e.1 < g.n ∧ e.2.1 < g.n) (hw : ∀ e ∈ g.edges, 0 ≤ e.2.2.mant)
+    (hl : lay.NoNewlineInComments) :
+    readDimacs (renderText g lay) = some g :=
+  DimacsL.readDimacs_renderText g lay hg hw hl
 
 end Parmcb.C10
